@@ -5,11 +5,13 @@ import (
 	"os"
 	"path/filepath"
 	"sort"
+	"strconv"
 	"strings"
 
 	casbin "github.com/casbin/casbin/v2"
 	"github.com/casbin/casbin/v2/model"
 	fileadapter "github.com/casbin/casbin/v2/persist/file-adapter"
+	stringadapter "github.com/casbin/casbin/v2/persist/string-adapter"
 )
 
 // C18: filtered loading on the real fileadapter.FilteredAdapter, files in a temp dir under the
@@ -594,6 +596,160 @@ func (u *c18Universe) randFile(c *Ctx, maxLines int, messy bool) string {
 	return strings.Join(ls, "\n")
 }
 
+// ordering models (subjectPriority, priority): whatever sequence of filtered / incremental loads
+// produced the view, the rule ORDER and the decisions must be those of a plain load of exactly
+// the lines in view (same file order).  Implementation-only predicate (Filter.v has no sort).
+const c18SubjModel = `[request_definition]
+r = sub, obj, act
+[policy_definition]
+p = sub, obj, act, eft
+[role_definition]
+g = _, _
+[policy_effect]
+e = subjectPriority(p_eft) || deny
+[matchers]
+m = g(r.sub, p.sub) && r.obj == p.obj && r.act == p.act
+`
+
+func c18Ordering(c *Ctx, dir string) {
+	n := 30
+	if c.Thorough() {
+		n = 600
+	}
+	names := []string{"root", "admin", "editor", "jane", "joe"}
+	for i := 0; i < n; i++ {
+		text, mtext := "", c18SubjModel
+		var lines []string
+		if i%3 == 2 {
+			mtext = machPriority.Text
+			for j := 0; j < 5; j++ {
+				lines = append(lines, fmt.Sprintf("p, %d, %s, data1, read, %s", c.Rng.Intn(4), names[c.Rng.Intn(len(names))], []string{"allow", "deny"}[c.Rng.Intn(2)]))
+			}
+			lines = append(lines, "g, jane, admin", "g, joe, editor")
+		} else {
+			perm := c.Rng.Perm(len(names))
+			for _, k := range perm {
+				lines = append(lines, fmt.Sprintf("p, %s, data1, read, %s", names[k], []string{"allow", "deny"}[c.Rng.Intn(2)]))
+			}
+			// a chain in random file order: root <- admin <- editor <- jane ; joe under admin
+			gl := []string{"g, admin, root", "g, editor, admin", "g, jane, editor", "g, joe, admin"}
+			c.Rng.Shuffle(len(gl), func(a, b int) { gl[a], gl[b] = gl[b], gl[a] })
+			lines = append(lines, gl...)
+		}
+		// de-duplicate lines (a store line is a rule)
+		seen := map[string]bool{}
+		var uniq []string
+		for _, l := range lines {
+			if !seen[l] {
+				seen[l] = true
+				uniq = append(uniq, l)
+			}
+		}
+		lines = uniq
+		text = strings.Join(lines, "\n") + "\n"
+		path := filepath.Join(dir, fmt.Sprintf("ord%d.csv", i))
+		_ = os.WriteFile(path, []byte(text), 0o644)
+		mm, err := model.NewModelFromString(mtext)
+		if err != nil {
+			panic(err)
+		}
+		e, err := casbin.NewEnforcer(mm)
+		if err != nil {
+			panic(err)
+		}
+		e.SetAdapter(fileadapter.NewFilteredAdapter(path))
+		id := fmt.Sprintf("c18.order.%d", i)
+		var trace []string
+		steps := 1 + c.Rng.Intn(3)
+		for st := 0; st < steps; st++ {
+			f := &fileadapter.Filter{}
+			switch c.Rng.Intn(4) {
+			case 0:
+				f.G = []string{"nobody"} // every p rule, no g rule
+			case 1:
+				f.P = []string{"nobody"} // no p rule, every g rule
+			case 2:
+				if i%3 == 2 {
+					f.P = []string{"", names[c.Rng.Intn(len(names))]}
+				} else {
+					f.P = []string{names[c.Rng.Intn(len(names))]}
+				}
+			default:
+				f.G = []string{names[c.Rng.Intn(len(names))]}
+			}
+			var lerr error
+			if st == 0 {
+				lerr = e.LoadFilteredPolicy(f)
+			} else {
+				lerr = e.LoadIncrementalFilteredPolicy(f)
+			}
+			trace = append(trace, fmt.Sprintf("load%d P=%v G=%v err=%v", st, f.P, f.G, lerr != nil))
+			if lerr != nil {
+				break
+			}
+			// the view, as lines of the file in file order
+			gotP, _ := e.GetPolicy()
+			gotG, _ := e.GetGroupingPolicy()
+			var view []string
+			for _, l := range lines {
+				fs := strings.Split(l, ", ")
+				if (fs[0] == "p" && c18HasRule(gotP, fs[1:])) || (fs[0] == "g" && c18HasRule(gotG, fs[1:])) {
+					view = append(view, l)
+				}
+			}
+			m2, _ := model.NewModelFromString(mtext)
+			ref, err := casbin.NewEnforcer(m2, stringadapter.NewAdapter(strings.Join(view, "\n")))
+			if err != nil {
+				continue // e.g. a cycle: not this predicate's business
+			}
+			wantP, _ := ref.GetPolicy()
+			// same rules; ranks (priority value / depth of the subject in the view's role tree)
+			// in sorted order.  Rules of EQUAL rank keep their order of arrival, which an
+			// incremental load legitimately changes, so ties are not compared.
+			if sortedRulesKey(gotP) != sortedRulesKey(wantP) {
+				c.Direct(id, "after filtered / incremental loads the view holds other rules than a plain load of the same lines", fmt.Sprintf("file=%q trace=%v got=%s want=%s", text, trace, rulesKey(gotP), rulesKey(wantP)))
+				break
+			}
+			rank := func(r []string) int {
+				if i%3 == 2 {
+					v, _ := strconv.Atoi(r[0])
+					return v
+				}
+				// depth below the top of the chain, deeper subjects first => rank = -depth
+				parent := map[string]string{}
+				for _, g := range gotG {
+					parent[g[0]] = g[1]
+				}
+				d, x := 0, r[0]
+				for k := 0; k < 10; k++ {
+					p, ok := parent[x]
+					if !ok {
+						break
+					}
+					d, x = d+1, p
+				}
+				return -d
+			}
+			for k := 1; k < len(gotP); k++ {
+				if rank(gotP[k-1]) > rank(gotP[k]) {
+					c.Direct(id, "after filtered / incremental loads the rules are not ordered by rank (priority / subject depth) as a plain load of the same lines orders them", fmt.Sprintf("file=%q trace=%v got=%s plain-load=%s", text, trace, rulesKey(gotP), rulesKey(wantP)))
+					break
+				}
+			}
+			if i%3 != 2 {
+				for _, s := range names {
+					a, _ := e.Enforce(s, "data1", "read")
+					b, _ := ref.Enforce(s, "data1", "read")
+					if a != b {
+						c.Direct(id, "after filtered / incremental loads a decision differs from a plain load of the same lines", fmt.Sprintf("file=%q trace=%v sub=%s got=%v want=%v", text, trace, s, a, b))
+					}
+				}
+			}
+		}
+		c.Count("ordering-model-loads")
+	}
+}
+
 func init() {
 	register("C18", func(c *Ctx) {
 		dir, err := os.MkdirTemp("", "verif-c18-")
@@ -605,6 +761,7 @@ func init() {
 			panic("c18: temp dir inside /repo or /verif")
 		}
 		v := &c18Env{c: c, dir: dir, path: filepath.Join(dir, "policy.csv")}
+		c18Ordering(c, dir)
 		flat, flat2, dom := c18Flat(), c18Flat2(), c18Dom()
 		n := 0
 		id := func(tag string) string { n++; return fmt.Sprintf("c18.%s.%d", tag, n) }
